@@ -904,8 +904,8 @@ def _twin_for(spec, ops=None):
 class C16(SolverSuite):
     prop = "C16"
     level = "fault_enumeration"
-    quick_runs = 60
-    thorough_runs = 900
+    quick_runs = 45
+    thorough_runs = 800
     chunk = 1
     rule = ("for every sampled (objective, box, parameters) the fault-free twin gives T trials; then EVERY evaluation index k in "
             "2..T (stride-sampled when T>120) x every exception kind (ValueError, ZeroDivisionError, MemoryError, StopIteration, "
